@@ -92,12 +92,20 @@ def default_dict_step(which, preset):
     n = ac.mk_shape(rng)
     out = []
     if which == "cross":
-        F = ac.dense_of(ac.mk_tt(rng, n, 2))
-        Y0 = ac.mk_tt(rng, n, 2)
+        F = ac.dense_of(ac.mk_tt(np.random.default_rng(500), n := [4, 3, 4], 3))
+        Y0 = ac.mk_tt(np.random.default_rng(501), n, 2)
+        # preset selects the argument combination; a later call must not inherit anything (budget, cache counters, ...)
+        # that an earlier call with ANOTHER combination left in the default dictionaries
+        args = [dict(nswp=2), dict(nswp=12, cache={}, m_cache_scale=1e9), dict(m=40, nswp=3), dict(e=1e-3, nswp=6)][preset % 4]
         for explicit in (True, False):
             f = Counting(F)
-            kw = dict(info={}, cache=None) if explicit else {}
-            Y = teneva.cross(f, [G.copy() for G in Y0], nswp=2, dr_min=preset % 2, dr_max=1, **kw)
+            kw = dict(args)
+            if "cache" in kw:
+                kw["cache"] = {}
+            if explicit:
+                kw["info"] = {}
+                kw.setdefault("cache", None)
+            Y = teneva.cross(f, [G.copy() for G in Y0], dr_min=1, dr_max=1, **kw)
             out.append(digest_of(Y, f.calls, f.n))
     elif which == "als":
         I = ac.cover_idx(rng, n, 20)
@@ -270,7 +278,20 @@ def enum_sweep(tier, shard, nshards):
             j += 1
 
 
+def enum_default_pairs(tier, shard, nshards):
+    """Every ordered pair (and triple with a repeat) of argument combinations of the routines with default dictionaries."""
+    j = 0
+    for which in ("cross", "als", "als_func", "cache_to_data"):
+        for a in range(4):
+            for b in range(4):
+                if j % nshards == shard:
+                    yield {"steps": [["default_dict", which, a], ["default_dict", which, b], ["poison", a, b], ["default_dict", which, a],
+                                      ["default_dict", "cross", b], ["default_dict", which, b]]}
+                j += 1
+
+
 SUBCHECKS = [
+    Sub("default_dict_pairs", prop_history, enumerate=enum_default_pairs, exhaustive=True),
     Sub("histories", prop_history, custom=custom),
     Sub("sweep", prop_history, enumerate=enum_sweep, exhaustive=True),
 ]
